@@ -405,7 +405,15 @@ func c07ContextOnly(c *Ctx) {
 				return false
 			case *ssa.Call:
 				cal := x.Call.StaticCallee()
-				return cal != nil && cal.Pkg != nil && cal.Pkg.Pkg.Path() == secPkgPath && len(x.Call.Args) > 0 && ownCtx(x.Call.Args[0])
+				if cal != nil && cal.Pkg != nil && cal.Pkg.Pkg.Path() == secPkgPath && len(x.Call.Args) > 0 && ownCtx(x.Call.Args[0]) {
+					return true
+				}
+				// an accessor of package protocol: TunnelFromContext(ctx) = ctx.Value(CtxTunnel).(*Tunnel)
+				if cal != nil && len(x.Call.Args) > 0 && ownCtx(x.Call.Args[0]) && tunnelAccessor(cal, ctxKey) {
+					nCtxReads++
+					return true
+				}
+				return false
 			}
 			return false
 		}
@@ -427,10 +435,38 @@ func c07ContextOnly(c *Ctx) {
 			wv = ci.(*ssa.Call)
 		}
 	}
+	wvTunnelArg := 2
+	if wv == nil {
+		// through a constructor of package protocol: ContextWithTunnel(ctx, t) = context.WithValue(ctx, CtxTunnel, t)
+		for _, ci := range callsIn(hg) {
+			call, ok := ci.(*ssa.Call)
+			if !ok {
+				continue
+			}
+			h := call.Call.StaticCallee()
+			if h == nil || !IsFirstParty(h) || h.Blocks == nil || len(h.Params) != 2 {
+				continue
+			}
+			rets := returnsOf(h)
+			if len(rets) != 1 || len(rets[0].Results) != 1 {
+				continue
+			}
+			inner, ok := strip(rets[0].Results[0]).(*ssa.Call)
+			if !ok || calleeName(inner) != "context.WithValue" {
+				continue
+			}
+			if s, ok := constString(arg(inner, 1)); !ok || s != c.constStringOf("cmd/rdpgw/protocol", "CtxTunnel") {
+				continue
+			}
+			if strip(arg(inner, 0)) == ssa.Value(h.Params[0]) && strip(arg(inner, 2)) == ssa.Value(h.Params[1]) {
+				wv, wvTunnelArg = call, 1
+			}
+		}
+	}
 	if wv == nil {
 		c.Bad(rule, "HandleGatewayProtocol WithValue", hg.Pos(), "the tunnel is not placed in the request context")
 	} else {
-		tv := strip(arg(wv, 2))
+		tv := strip(arg(wv, wvTunnelArg))
 		good := true
 		for _, ci := range callsIn(hg) {
 			n := calleeName(ci)
@@ -451,7 +487,7 @@ func c07ContextOnly(c *Ctx) {
 	// every processor is built on, and every packet loop runs with the context of, the tunnel that
 	// HandleGatewayProtocol put into that context (followed through helper parameters)
 	if wv != nil {
-		tv := strip(arg(wv, 2))
+		tv := strip(arg(wv, wvTunnelArg))
 		isTunnel := func(v ssa.Value) bool { return strip(v) == tv }
 		isCtx := func(v ssa.Value) bool {
 			v = strip(v)
@@ -725,4 +761,47 @@ func (c *Ctx) frozenName(name string) string {
 		return "cmd/rdpgw/protocol.c"
 	}
 	return name
+}
+
+// tunnelAccessor: f(ctx, ...) returns, as its first result, ctx.Value(<the tunnel key>).(*Tunnel) of
+// its own first parameter on every path that returns a non-nil tunnel.
+func tunnelAccessor(f *ssa.Function, key string) bool {
+	if f == nil || !IsFirstParty(f) || f.Blocks == nil || len(f.Params) == 0 || f.Params[0].Type().String() != "context.Context" {
+		return false
+	}
+	var ok func(v ssa.Value, depth int) bool
+	ok = func(v ssa.Value, depth int) bool {
+		if depth > 4 {
+			return false
+		}
+		switch x := strip(unspill(v)).(type) {
+		case *ssa.Const:
+			return x.IsNil()
+		case *ssa.Phi:
+			for _, e := range x.Edges {
+				if e != ssa.Value(x) && !ok(e, depth+1) {
+					return false
+				}
+			}
+			return true
+		case *ssa.Extract:
+			return ok(x.Tuple, depth+1)
+		case *ssa.TypeAssert:
+			call, isCall := x.X.(*ssa.Call)
+			if !isCall || !call.Call.IsInvoke() || call.Call.Method.Name() != "Value" || call.Call.Value != ssa.Value(f.Params[0]) {
+				return false
+			}
+			k, isC := constString(call.Call.Args[0])
+			return isC && k == key
+		}
+		return false
+	}
+	some := false
+	for _, r := range returnsOf(f) {
+		if len(r.Results) == 0 || !ok(r.Results[0], 0) {
+			return false
+		}
+		some = true
+	}
+	return some
 }
